@@ -459,6 +459,33 @@ fn latitudes(h: &H, idx: u64, rng: &mut Rng) {
             }
         }
     }
+    // the `latitude` operator on the same ellipsoid, against the same definitions
+    if k != "isometric" {
+        let mut ctx = Minimal::new();
+        let def = format!("latitude {k} ellps={name}");
+        let Ok(op) = ctx.op(&def) else {
+            v(h, idx, &format!("latitude-operator/{k}/instantiation"), J::obj().set("definition", &def));
+            return;
+        };
+        h.class(&format!("latitude-operator/{k}"));
+        for _ in 0..12 {
+            let lat = rng.range(-89.0, 89.0) * D2R;
+            let (r, c) = apply1(&ctx, op, D::F, [0.25, lat, 3.0, 4.0]);
+            let (b, _) = apply1(&ctx, op, D::I, r);
+            h.eval(2);
+            let want = reference(lat);
+            let got = if k == "rectifying" { r[1] / qn } else { r[1] };
+            if c != 1 || !((got - want).abs() <= 1.0e-11) || !((b[1] - lat).abs() <= 1.0e-12) || r[0] != 0.25 || r[2] != 3.0 {
+                v(
+                    h,
+                    idx,
+                    &format!("latitude-operator/{k}/differs-from-definition"),
+                    J::obj().set("definition", &def).set("latitude", lat).set("operator", r[1]).set("reference", want).set("back", b[1]).set("count", c),
+                );
+                return;
+            }
+        }
+    }
 }
 
 fn meridians(h: &H, idx: u64, rng: &mut Rng) {
